@@ -2,7 +2,8 @@
 (* Trace judge for C07.  Input: ndjson (TRACE_FILE), one TLC state per line.                  *)
 (*  class  : [t, i, op, fn, slot, kd, ty, n, ex]                                              *)
 (*           an outcome class: n recorded calls of function fn (for fn = "Request": of a      *)
-(*           Request whose environ carries the hostile text in `slot`) that all had the       *)
+(*           Request whose environ carries the hostile text in `slot`; for "RequestBody": as  *)
+(*           CONTENT_TYPE of a request with body and CONTENT_LENGTH variant `slot`) that had  *)
 (*           outcome vector (kd, ty) -- one entry per position of Hostile!Table[fn] -- with   *)
 (*           up to five of the input texts (ex, code point sequences).  The contract is a     *)
 (*           function of (fn, position, kd, ty) only, so judging the class judges its calls.  *)
@@ -21,7 +22,7 @@ Rej(ln, w, core, clause) ==
   PrintT(ToJson([reject |-> 1, t |-> ln.t, i |-> ln.i, w |-> w, core |-> core, clause |-> clause]))
 
 JudgeClass(ln) ==
-  IF ln.fn \notin Fns \/ (ln.fn = "Request") # (ln.slot \in Slots) \/ Len(ln.kd) # Len(Table[ln.fn]) \/ Len(ln.ty) # Len(ln.kd)
+  IF ln.fn \notin Fns \/ (ln.fn = "Request") # (ln.slot \in Slots) \/ (ln.fn = "RequestBody") # (ln.slot \in BodySlots) \/ Len(ln.kd) # Len(Table[ln.fn]) \/ Len(ln.ty) # Len(ln.kd)
      \/ ln.n < 1 \/ Len(ln.ex) < 1
   THEN Rej(ln, 0, TRUE, "MalformedTraceLine")
   ELSE /\ IF \A e \in 1..Len(ln.ex) : InDomain(ln.ex[e]) THEN TRUE ELSE Rej(ln, 0, TRUE, "OutOfDomain")
